@@ -280,30 +280,82 @@ def get_modified_time_unit(ctx):
     props=["C12"],
     functions=[(MOUNT, "MountedStore.read"), (MOUNT, "MountedStore.write"), (MOUNT, "_path_context")],
     assumptions=["T7 copy_to_local / copy_from_local copy faithfully; create_store(path) returns a store satisfying its own round-trip contract",
-                 "T8 tempfile.TemporaryDirectory gives a fresh directory"],
-    min_obligations=4,
+                 "T8 tempfile.TemporaryDirectory / mkdtemp / mkstemp / NamedTemporaryFile give a fresh name on every call",
+                 "store operations of one run execute concurrently (C10), so a local path shared between two operations can carry another store's bytes"],
+    min_obligations=6,
 )
 def mounted_store_unit(ctx):
+    """two operations in a row (each a read or a write); per operation: the underlying store is created on a local path, used once, the
+    copy happens on the right side of it with the SAME path, and that path lies in a directory (or is a file) that tempfile created
+    during THIS operation - private to it"""
     import os as real_os
 
+    from ujvc.units import base_env
+
     log = []
-    dirs = []
+    made = []  # (operation index, name) of every fresh temp name
+    cur = {"op": None}
+
+    def fresh(kind):
+        d = f"/tmp/{kind}{len(made)}"
+        made.append((cur["op"], d))
+        log.append(("tempfile." + kind, d))
+        return d
 
     class _TD:
+        def __init__(self, *a, **k):
+            self.name = fresh("TemporaryDirectory")
+
         def __enter__(self):
-            d = f"/tmp/fresh{len(dirs)}"
-            dirs.append(d)
-            log.append(("tempdir-enter", d))
-            return d
+            return self.name
 
         def __exit__(self, *a):
-            log.append(("tempdir-exit", dirs[-1]))
+            log.append(("tempdir-exit", self.name))
             return False
+
+        def cleanup(self):
+            log.append(("tempdir-exit", self.name))
+
+    class _NTF:
+        def __init__(self, *a, **k):
+            self.name = fresh("NamedTemporaryFile")
+
+        def __enter__(self):
+            return self
+
+        def __exit__(self, *a):
+            return False
+
+        def close(self):
+            pass
 
     class _tempfile:
         TemporaryDirectory = _TD
+        NamedTemporaryFile = _NTF
+        mkdtemp = staticmethod(lambda *a, **k: fresh("mkdtemp"))
+        mkstemp = staticmethod(lambda *a, **k: (99, fresh("mkstemp")))
+        gettempdir = staticmethod(lambda: "/tmp")
 
-    env = {"tempfile": _tempfile, "os": real_os, "contextmanager": contextlib.contextmanager}
+    class _os:
+        path = real_os.path
+        sep = real_os.sep
+        getpid = staticmethod(lambda: 4242)
+        remove = staticmethod(lambda p_: log.append(("os.remove", p_)))
+        unlink = staticmethod(lambda p_: log.append(("os.remove", p_)))
+        close = staticmethod(lambda fd: None)
+        rmdir = staticmethod(lambda p_: log.append(("os.rmdir", p_)))
+        makedirs = staticmethod(lambda p_, **k: log.append(("os.makedirs", p_)))
+
+    class _atexit:
+        register = staticmethod(lambda f, *a, **k: f)
+
+    class _shutil:
+        rmtree = staticmethod(lambda p_, **k: log.append(("shutil.rmtree", p_)))
+
+    import threading as _threading
+
+    env = base_env(MOUNT)
+    env.update({"tempfile": _tempfile, "os": _os, "contextmanager": contextlib.contextmanager, "atexit": _atexit, "shutil": _shutil, "threading": _threading})
     get(MOUNT, "_path_context").compile_into(env)
     read = get(MOUNT, "MountedStore.read").compile_into(env)
     write = get(MOUNT, "MountedStore.write").compile_into(env)
@@ -320,23 +372,83 @@ def mounted_store_unit(ctx):
         def write(self, v):
             log.append(("under.write", self.p, v))
 
-    s = _Self()
-    s.copy_to_local = lambda p: log.append(("copy_to_local", p))
-    s.copy_from_local = lambda p: log.append(("copy_from_local", p))
-    s.create_store = lambda p: (log.append(("create_store", p)), Under(p))[1]
-    which = ctx.choose(2, "op")
-    if which == 0:
-        r = write(s, VALUE)
-        p = "/tmp/fresh0/temp"
-        want = [("tempdir-enter", "/tmp/fresh0"), ("create_store", p), ("under.write", p, VALUE), ("copy_from_local", p), ("tempdir-exit", "/tmp/fresh0")]
-        ctx.check("MountedStore.write/stage-locally-then-copy-out-same-path-in-fresh-dir", bool(log == want), info=str(log))
-        ctx.check("MountedStore.write/returns-None", bool(r is None))
-    else:
-        r = read(s)
-        p = "/tmp/fresh0/temp"
-        want = [("tempdir-enter", "/tmp/fresh0"), ("copy_to_local", p), ("create_store", p), ("under.read", p), ("tempdir-exit", "/tmp/fresh0")]
-        ctx.check("MountedStore.read/copy-in-then-read-same-path-in-fresh-dir", bool(log == want), info=str(log))
-        ctx.check("MountedStore.read/returns-what-the-underlying-store-read", bool(r is RESULT))
+    def mk_store():
+        s = _Self()
+        s.copy_to_local = lambda p: log.append(("copy_to_local", p))
+        s.copy_from_local = lambda p: log.append(("copy_from_local", p))
+        s.create_store = lambda p: (log.append(("create_store", p)), Under(p))[1]
+        return s
+
+    locals_used = []
+    for op in (0, 1):
+        cur["op"] = op
+        which = ctx.choose(2, f"op{op}")
+        del log[:]
+        s = mk_store()
+        name = "write" if which == 0 else "read"
+        r = write(s, VALUE) if which == 0 else read(s)
+        core = [e for e in log if e[0] in ("create_store", "under.write", "under.read", "copy_from_local", "copy_to_local")]
+        p = core[0][1] if core else None
+        if which == 0:
+            ok = core == [("create_store", p), ("under.write", p, VALUE), ("copy_from_local", p)]
+            ctx.check("MountedStore.write/stage-locally-then-copy-out:create_store(p).write(value)-then-copy_from_local(p)-same-path-each-once", bool(ok), info=str(log))
+            ctx.check("MountedStore.write/returns-None", bool(r is None))
+        else:
+            ok = core == [("copy_to_local", p), ("create_store", p), ("under.read", p)]
+            ctx.check("MountedStore.read/copy-in-then-read:copy_to_local(p)-then-create_store(p).read()-same-path-each-once", bool(ok), info=str(log))
+            ctx.check("MountedStore.read/returns-what-the-underlying-store-read", bool(r is RESULT))
+        mine = [d for o, d in made if o == op]
+        private = isinstance(p, str) and any(p == d or p.startswith(d + "/") for d in mine)
+        ctx.check(f"MountedStore.{name}/local-path-is-private-to-this-operation(inside-a-temp-name-created-during-it)", bool(private),
+                  info=f"local path {p!r}; temp names created during this operation: {mine}; earlier: {[d for o, d in made if o != op]}")
+        locals_used.append(p)
+    ctx.check("MountedStore/two-operations-never-share-a-local-path", bool(locals_used[0] != locals_used[1]), info=str(locals_used))
+
+
+MOUNTED_SCRIPT = textwrap.dedent(
+    """
+    import os, sys, threading
+    import uberjob
+    from uberjob.stores import JsonFileStore
+    from uberjob.stores._mounted_store import MountedStore
+
+    remote = {}
+    a_in_copy, b_written = threading.Event(), threading.Event()
+
+    class Mem(MountedStore):
+        def __init__(self, name):
+            super().__init__(JsonFileStore); self.name = name
+        def copy_from_local(self, local_path):
+            if self.name == "A":
+                a_in_copy.set(); b_written.wait(5)      # B's local write lands while A is copying out
+            else:
+                b_written.set()
+            with open(local_path, "rb") as f: remote[self.name] = f.read()
+        def copy_to_local(self, local_path):
+            with open(local_path, "wb") as f: f.write(remote[self.name])
+        def get_modified_time(self): return None
+
+    A, B = Mem("A"), Mem("B")
+    def write_b():
+        a_in_copy.wait(5); B.write({"value": "B"})
+    t = threading.Thread(target=write_b); t.start()
+    A.write({"value": "A"}); t.join()
+    got_a, got_b = A.read(), B.read()
+    if got_a != {"value": "A"} or got_b != {"value": "B"}:
+        print("C12 violated: two mounted stores written concurrently: A reads back", got_a, "B reads back", got_b); sys.exit(1)
+    print("ok"); sys.exit(0)
+    """
+)
+
+
+def _replay_mounted(ob):
+    import os
+    import subprocess
+
+    from ujvc.z3env import REPO_SRC
+
+    p = subprocess.run(["/venv/bin/python", "-c", MOUNTED_SCRIPT], env=dict(os.environ, PYTHONPATH=REPO_SRC), capture_output=True, text=True, timeout=120)
+    return {"reproduced": p.returncode == 1, "detail": (p.stdout + p.stderr)[-2000:], "script": MOUNTED_SCRIPT}
 
 
 # ---------------------------------------------------------------------------------------
@@ -384,6 +496,17 @@ REPLAY_SCRIPT = textwrap.dedent(
             if st.read() is not None or st.get_modified_time() is None: bad.append(("TouchFileStore", "roundtrip"))
             m1 = st.get_modified_time(); st.write(None); m2 = st.get_modified_time()
             if m2 < m1: bad.append(("TouchFileStore", "mtime decreased", m1, m2))
+            # "None exactly when nothing is stored": whatever the file's modified time is (epoch 0, far past, far future, fractional)
+            jp = mk(os.path.join(d, "m" + mk.__name__)); js = JsonFileStore(jp); js.write([1])
+            prev = None
+            for ts in (0, 0.0, 0.5, 1, 86400 * 365.25 * 30 + 0.25, 2**31 + 0.75, 4102444800):
+                os.utime(jp, (ts, ts)); m = js.get_modified_time()
+                if m is None: bad.append(("get_modified_time", "None although a value is stored; file mtime", ts)); break
+                if js.read() != [1]: bad.append(("read", "after utime", ts))
+                if prev is not None and m < prev: bad.append(("get_modified_time", "not monotone in the file's mtime", ts, prev, m))
+                prev = m
+            os.remove(jp)
+            if js.get_modified_time() is not None: bad.append(("get_modified_time", "not None although nothing is stored"))
     for b in bad[:5]: print("C12 violated:", repr(b)[:300])
     sys.exit(1 if bad else 0)
     '''
@@ -400,7 +523,7 @@ def _replay(ob):
     return {"reproduced": p.returncode == 1, "detail": (p.stdout + p.stderr)[-3000:], "script": REPLAY_SCRIPT}
 
 
-REPLAYS = [("stores.*", _replay)]
+REPLAYS = [("stores.MountedStore*", _replay_mounted), ("stores.*", _replay)]
 
 
 @unit("stores.native-roundtrip[bounded]", props=["C12"], assumptions=["bounded stand-in: generated values (texts with every line terminator, JSON trees, pickles, bytes), 4 encodings, str and pathlib paths"],
